@@ -139,6 +139,17 @@ def gen_pair(rng, maxrows=8, how=None, force_sort=None, min_rows=0):
             R.append(["b9", _payload_col(rng, "R", 9, nr)])
         rng.shuffle(L)
         rng.shuffle(R)
+        if rng.random() < 0.15:
+            # a LOOK-ALIKE column in front of a key column that is given by name: same letters in another case
+            # ("K0" before "k0"), other values.  A key given by name is the column with exactly that name.
+            for side, on in ((L, lon), (R, ron)):
+                named = [s_[1] for s_ in on if s_[0] == "n"]
+                if named and side:
+                    nm = rng.choice(named)
+                    n_rows = len(side[0][1])
+                    decoy = [["s", f"decoy{r}"] if rng.random() < 0.8 else ["N"] for r in range(n_rows)]
+                    pos = next(i for i, (cn, _) in enumerate(side) if cn == nm)
+                    side.insert(pos, [nm.upper(), decoy])
         if rng.random() < 0.3:                              # pair the key columns in another order
             perm = list(range(nk))
             rng.shuffle(perm)
